@@ -1,11 +1,13 @@
 #!/bin/sh
-# tools/seedtest.sh <dir-with-patch.diff> <prop> [check args]: apply a seeded change to /repo, run the check, undo.
+# tools/seedtest.sh <dir-with-patch.diff> <prop> [check args]: apply a seeded change to /repo, run the check, undo (always, via trap).
 D="$1"; PROP="$2"; shift 2
 cd /repo || exit 3
 git diff --quiet || { echo "repo dirty"; exit 3; }
+cp -r /verif/evidence /tmp/evidence.bak.$$
+restore() { git -C /repo checkout -- . ; rm -rf /verif/evidence; mv /tmp/evidence.bak.$$ /verif/evidence; }
+trap restore EXIT HUP INT TERM PIPE
 git apply "$D/patch.diff" || { echo "patch does not apply"; exit 3; }
-cp -r /verif/evidence /tmp/evidence.bak.$$; cd /verif && ./check "$PROP" "$@" > /tmp/seedtest.$$.log 2>&1; RC=$?
+cd /verif && ./check "$PROP" "$@" > /tmp/seedtest.$$.log 2>&1; RC=$?
+restore; trap - EXIT HUP INT TERM PIPE
 grep -E "^\[|VIOLATION|UNDECIDED|DOWNGRADED|CRASH|KNOWN" /tmp/seedtest.$$.log | head -8
 echo "exit=$RC"; rm -f /tmp/seedtest.$$.log
-git -C /repo checkout -- .
-rm -rf /verif/evidence && mv /tmp/evidence.bak.$$ /verif/evidence
